@@ -232,6 +232,9 @@ Judge(s, e) ==
                         \cup (IF e.mcapRaces # 0 THEN {"C13/DataRace"} ELSE {})
     [] e.ev = "PyRead" -> JudgePy(s, e)
     [] e.ev = "PyWrite" -> IF e.ok THEN {} ELSE {"C16/PythonWriter/Failed"}
+    \* C16, Python writes / Go reads: the statistics Go's Info reports describe what Python was asked to write
+    [] e.ev = "Info" /\ IsLayoutRun(s) /\ "python" \in DOMAIN s.cfg /\ e.ret = "ok" /\ "stats" \in DOMAIN e ->
+         Failed("Statistics", StatsNames(e.stats, Content(s), e.stats.chunks))
     [] OTHER -> {}
 
 Init == l = 1 /\ st = NoRun /\ rej = <<>>
